@@ -38,7 +38,8 @@ def gen_history(rnd, length):
         elif k < 0.62:
             h.append(dict(op="simulate", date=d, seed=rnd.randrange(10**6), n_hh=rnd.choice([3, 6]), targets=rnd.choice(TARGET_SETS),
                           rounding=rnd.random() < 0.7, as_dict=rnd.random() < 0.4, int_as_float=rnd.random() < 0.4,
-                          replace=rnd.choice([None, None, "kindergeld_m", "elterngeld_m", "ges_rentenv_beitr_arbeitnehmer_m"])))
+                          replace=rnd.choice([None, None, "kindergeld_m", "elterngeld_m", "ges_rentenv_beitr_arbeitnehmer_m"]),
+                          replace_delta=rnd.choice([1, 2, 5])))
         elif k < 0.68:
             h.append(dict(op="inplace", date=d, group=rnd.choice(["sozialv_beitr", "wohngeld", "arbeitsl_geld_2", "kinderzuschl", "ges_rente", "eink_st"])))
         elif k < 0.80:
@@ -67,6 +68,11 @@ def run(ctx, res):
                      dict(op="simulate", date="2023-07-01", seed=6, n_hh=4, targets=["kindergeld_m", "elterngeld_m"], rounding=True, as_dict=False, int_as_float=False, replace="kindergeld_m"),
                      dict(op="simulate", date="2023-07-01", seed=6, n_hh=4, targets=["kindergeld_m", "elterngeld_m"], rounding=True, as_dict=False, int_as_float=False, replace="elterngeld_m"),
                      dict(op="simulate", date="2023-07-01", seed=6, n_hh=4, targets=["kindergeld_m", "elterngeld_m"], rounding=True, as_dict=False, int_as_float=False)])
+    # a parameter sweep with factory-made user functions: same name and module, different behaviour, one after the other in one process
+    hists.append([dict(op="setup", date="2023-07-01")] +
+                 [dict(op="simulate", date="2023-07-01", seed=8, n_hh=4, targets=["kindergeld_m", "kindergeld_m_fg"], rounding=True, as_dict=False, int_as_float=False,
+                       replace="kindergeld_m", replace_delta=dl) for dl in (1, 3, 7, 3)] +
+                 [dict(op="simulate", date="2023-07-01", seed=8, n_hh=4, targets=["kindergeld_m", "kindergeld_m_fg"], rounding=True, as_dict=False, int_as_float=False)])
     stats = dict(histories=len(hists), calls=0, compared_with_fresh_process=0, rewrites=0, errors={})
     with cf.ThreadPoolExecutor(max_workers=6) as ex:
         joint = list(ex.map(run_history, hists))
